@@ -112,10 +112,12 @@ func knownBoundOf(c *Compiler, v ssa.Value) uint64 {
 //@ func (c *Compiler) getMemoryLenValue(forceReload bool) ssa.Value
 //@   trusted
 //@   ensures verif_ghost_int("memLenVal") == int(r0)
-//@   modifies ghost("memLenVal")
+//@   records H:lenReloads = old(gg("H:lenReloads")) + b2i(forceReload)
+//@   modifies ghost("memLenVal"), ghost("H:lenReloads")
 //@ func (c *Compiler) getMemoryBaseValue(forceReload bool) ssa.Value
 //@   trusted
-//@   modifies nothing
+//@   records H:baseReloads = old(gg("H:baseReloads")) + b2i(forceReload)
+//@   modifies ghost("H:baseReloads")
 
 //@ case from-the-memory-slot (c *Compiler) getMemoryLenValue(forceReload bool) ssa.Value
 //@   requires c.ssaBuilder != nil
@@ -419,4 +421,31 @@ func b2i(b bool) int {
 //@   ensures[expected-type-id-of-the-immediate] ssa.IsLoaded(ssa.ExitCmpY(wazevoapi.ExitCodeIndirectCallTypeMismatch)) && ssa.LoadedAt(ssa.ExitCmpY(wazevoapi.ExitCodeIndirectCallTypeMismatch)) == uint64(typeIndex*4) && ssa.IsLoaded(ssa.LoadedFrom(ssa.ExitCmpY(wazevoapi.ExitCodeIndirectCallTypeMismatch))) && ssa.LoadedFrom(ssa.LoadedFrom(ssa.ExitCmpY(wazevoapi.ExitCodeIndirectCallTypeMismatch))) == c.moduleCtxPtrValue && ssa.LoadedAt(ssa.LoadedFrom(ssa.ExitCmpY(wazevoapi.ExitCodeIndirectCallTypeMismatch))) == uint64(c.offset.TypeIDs1stElement.U32())
 //@   ensures[calls-the-executable-of-the-checked-entry] ssa.IsLoaded(r0) && ssa.LoadedAt(r0) == wazevoapi.FunctionInstanceExecutableOffset && ssa.LoadedFrom(r0) == ssa.ExitCmpX(wazevoapi.ExitCodeIndirectCallNullPointer)
 //@   modifies ghost("*"), c.loweringState.values
+//@   nosafety keep-pre
+
+// ---- C02 / C14: the memory base and length that later checks use are the values cached for the current
+// linear path; every instruction after which they may have changed - memory.grow and every call - is
+// followed by a forced reload of both (history ghosts count the forced reloads).
+//@ prop C02 C14
+//@ func (c *Compiler) reloadMemoryBaseLen()
+//@   requires c.ssaBuilder != nil
+//@   ensures[both-reloaded] gg("H:lenReloads") == old(gg("H:lenReloads"))+1 && gg("H:baseReloads") == old(gg("H:baseReloads"))+1
+//@   modifies ghost("*"), ghost("H:lenReloads"), ghost("H:baseReloads"), elems(c.knownSafeBounds)
+//@   nosafety keep-pre
+
+//@ func (c *Compiler) reloadAfterCall()
+//@   requires c.ssaBuilder != nil && c.m != nil
+//@   ensures[memory-reloaded-unless-it-cannot-move] c.needMemory && !c.memoryShared ==> gg("H:lenReloads") == old(gg("H:lenReloads"))+1 && gg("H:baseReloads") == old(gg("H:baseReloads"))+1
+//@   modifies ghost("*"), ghost("H:lenReloads"), ghost("H:baseReloads"), elems(c.knownSafeBounds)
+//@   nosafety
+
+//@ case memory.grow (c *Compiler) lowerCurrentOpcode()
+//@   requires c.ssaBuilder != nil && c.loweringState.pc >= 0 && c.loweringState.pc+1 < len(c.wasmFunctionBody) && c.wasmFunctionBody[c.loweringState.pc] == wasm.OpcodeMemoryGrow
+//@   requires !c.loweringState.unreachable && len(c.loweringState.values) >= 1
+//@   ensures[base-and-length-reloaded-after-the-grow] gg("H:lenReloads") == old(gg("H:lenReloads"))+1 && gg("H:baseReloads") == old(gg("H:baseReloads"))+1
+//@   nosafety keep-pre
+
+//@ func (c *Compiler) lowerCallIndirect(typeIndex, tableIndex uint32)
+//@   requires c.ssaBuilder != nil && c.m != nil && int(typeIndex) < len(c.m.TypeSection) && len(c.loweringState.values) >= 1 && len(c.loweringState.values)-1 >= len(c.m.TypeSection[typeIndex].Params)
+//@   ensures[memory-reloaded-after-the-call] c.needMemory && !c.memoryShared ==> gg("H:lenReloads") == old(gg("H:lenReloads"))+1 && gg("H:baseReloads") == old(gg("H:baseReloads"))+1
 //@   nosafety keep-pre
